@@ -65,7 +65,7 @@ ASSUMPTIONS = [
 
 # 'recursion' arises at the same decision point as a clash (loading the stored object for the identity check)
 ERR = {'clash': 'EClash', 'unser': 'EUnser', 'missing': 'EMissing', 'recursion': 'EClash'}
-BACKEND = {'dict': 'BDict', 'fs': 'BFs', 'zip': 'BZip', 'cfs': 'BFs'}
+BACKEND = {'dict': 'BDict', 'fs': 'BFs', 'zip': 'BZip', 'cfs': 'BFs', 'czip': 'BZip'}
 
 
 # ---------------------------------------------------------------------------------------------------------------------
@@ -88,6 +88,15 @@ def run_impl(case, tier=None):
                 crashes.append({'k': k, 'prim': r0['trace'][k], 'wb': rk['writes_before'], 'outcome': rk['outcome'],
                                 'obs': rk['after'], 'post': rk.get('post_obs', rk['after']),
                                 'post_outcome': rk.get('post_outcome')})
+            # failures produced by the environment (descriptor limit, unacceptable file name): same list, marked
+            for rn in ra.get('naturals', []):
+                k = rn['k']
+                if rn['trace'][:k + 1] != r0['trace'][:k + 1]:
+                    return {'crash': 'non-deterministic primitive sequence (environment failure at k=%d)' % k}
+                crashes.append({'k': k, 'prim': r0['trace'][k], 'wb': rn['writes_before'], 'outcome': rn['outcome'],
+                                'obs': rn['after'], 'post': rn.get('post_obs', rn['after']),
+                                'post_outcome': rn.get('post_outcome'), 'natural': rn['how']})
+            crashes.sort(key=lambda c: (c['k'], 'natural' in c))
             return {'before': r0['before'], 'outcome': r0['outcome'], 'after': r0['after'], 'trace': r0['trace'],
                     'crashes': crashes, 'after_post': r0.get('post_obs', r0['after']),
                     'post_outcome': r0.get('post_outcome'), 'kills': ra['kills'], 'ktrace': ra['ktrace']}
@@ -135,6 +144,19 @@ def g_obs(o):
         gbool(o['missing']), glist(lambda e: '(%s, %s, %s)' % (gN(e[0]), g_doc(e[1]), gbool(e[2])), o['entries']))
 
 
+def _all_observations(obs):
+    yield 'before the operation', obs['before']
+    yield 'no-failure run', obs['after']
+    yield 'no-failure run, then follow-up', obs.get('after_post', obs['after'])
+    for c in obs['crashes']:
+        yield 'failure at primitive %d (%s)' % (c['k'], c['prim']), c['obs']
+        yield 'failure at primitive %d (%s), then follow-up' % (c['k'], c['prim']), c['post']
+
+
+def _views_differ(obs):
+    return [w for w, o in _all_observations(obs) if 'view2' in o]
+
+
 def to_coq(case, obs):
     if 'crash' in obs or 'hang' in obs or obs['outcome'] == 'fault':
         return 'CCrash'
@@ -145,6 +167,8 @@ def to_coq(case, obs):
         oc = 'clash'
     out = 'OutOk' if oc == 'ok' else '(OutErr %s)' % ERR[oc]
     if any(c.get('post_outcome') == 'fault' for c in obs['crashes']) or obs.get('post_outcome') == 'fault':
+        return 'CCrash'
+    if _views_differ(obs):
         return 'CCrash'
     g_crash = lambda c: '{| writes_before := %s; seen := %s; seen_post := %s |}' % (
         gN(c['wb']), g_obs(c['obs']), g_obs(c['post']))
@@ -457,6 +481,233 @@ def lowlevel_cases(tier):
     return out
 
 
+# ---------------------------------------------------------------------------------------------------------------------
+# round 4: families for the classes behind the wave-3 seeds (both were caught, by sampled / random cases only)
+
+def _retag(c, note, **kw):
+    c['note'] = note
+    c.update(kw)
+    return c
+
+
+LONG = lambda i, n: ('n%d_' % i).ljust(n, 'x')      # an identifier of exactly n characters for the number i
+
+# spellings that are all valid identifiers and file names; none may change anything (the model knows numbers only)
+SPELLINGS = [
+    {0: 'n0.json', 1: '.n1', 2: 'n2.tmp', 3: 'n3.json.tmp', 4: 'n 4', 5: 'n5.', 6: 'N6', 7: 'n6', 8: 'n7.json'},
+    {0: 'p\u00fcls-0', 1: 'n1*', 2: 'n2?[a]', 3: "n3'\"", 4: 'n4%s', 5: 'n5\\x', 6: 'n6:1', 7: 'n7~', 8: '-n8'},
+    {0: LONG(0, 246), 1: LONG(1, 246), 2: LONG(2, 200), 3: LONG(3, 246), 4: LONG(4, 246), 5: LONG(5, 246),
+     6: LONG(6, 245), 7: LONG(7, 246), 8: LONG(8, 100)},
+]
+
+
+def open_failure_cases(tier):
+    """failures of OPENING / CREATING a file (as opposed to writing into it), from the injector and from the
+    environment: (1) `emfile`: at every position that opens or creates a file the limit of open descriptors of the
+    process is 0 while the primitive runs (the real open / mkstemp raises EMFILE; nothing is injected);
+    (2) `names`: one new identifier of the final operation is spelled so that a file name derived from it is refused
+    by the file system: 247..251 characters (`<id>.json.tmp` longer than 255 bytes, `<id>.json` still valid up to
+    250), a path separator with a directory that does not exist; 246 characters = the longest spelling that works;
+    every position of every run is a fault position (the first / middle / last document of the flush fails to open)"""
+    out = []
+    shapes = [(1, 'store_fresh', ['newtree'], False), (2, 'overwrite_cached0', ['newleaf', 'cached1'], False),
+              (1, 'overwrite_cached1', ['newleaf'], True), (0, 'store_fresh', ['newleaf', 'newleaf'], False)]
+    for b in ('fs', 'zip', 'cfs') + (('czip',) if tier == 'thorough' else ()):
+        for j, (preset, rm, kinds, cleared) in enumerate(shapes):
+            c = enum_case(b, preset, rm, kinds, cleared, 'partial' if j == 2 else 'raise')
+            _retag(c, 'open emfile ' + c['note'][5:], natural={'emfile': True}, all_positions=True,
+                   force_reads=(j % 2 == 1), lowlevel=(b == 'zip' and j in (0, 3)))
+            if j == 1:
+                c['post'] = dict(c['final'])
+                c['fixed_post'] = True
+            out.append(c)
+        c = enum_case(b, 2, 'store_fresh', [], False)
+        c['final'] = {'op': 'delete', 'id': 3}
+        out.append(_retag(c, 'open emfile delete', natural={'emfile': True}, all_positions=True, force_reads=True))
+    for b in ('fs', 'cfs', 'zip'):
+        for j, (preset, rm, kinds, cleared) in enumerate(shapes[:2] + [(1, 'overwrite_fresh', ['newtree', 'newleaf'], True)]):
+            c = enum_case(b, preset, rm, kinds, cleared)
+            final_ids = [i for i, _ in ids_in(c['objs'], c['final']['t'])]
+            new_ids = sorted({i for i in final_ids if i >= 4})
+            specs = []
+            for i in new_ids:
+                for n in ((246, 247, 250, 251) if (i + j) % 2 == 0 or tier == 'thorough' else (247, 250)):
+                    specs.append({'id': i, 'name': LONG(i, n), 'fails': n > 246})
+            specs.append({'id': new_ids[0], 'name': 'sub/n%d' % new_ids[0], 'fails': True})
+            specs.append({'id': new_ids[-1], 'name': 'n%d/x' % new_ids[-1], 'fails': True})
+            out.append(_retag(c, 'open names ' + c['note'][5:], natural={'names': specs}, all_positions=True,
+                              fixed_post=True))
+    return out
+
+
+def spelling_cases(backends, tier):
+    """identifiers spelled with characters that matter for a file system (dots, a leading dot, `.json` / `.tmp` /
+    `.json.tmp` endings, blanks, glob and quote characters, non-ASCII, upper / lower case twins, the longest
+    spelling the directory backend can store): nothing may depend on the spelling"""
+    out = []
+    specs = [(2, 'store_fresh', ['newleaf', 'newtree'], False), (2, 'overwrite_cached0', ['cached1', 'newleaf'], False),
+             (2, 'overwrite_cached1', ['newtree'], True), (2, 'store_used', ['newleaf'], False)]
+    j = 0
+    for names in SPELLINGS:
+        for preset, rm, kinds, cleared in specs:
+            for b in (backends if tier == 'thorough' else [backends[j % len(backends)]]):
+                c = enum_case(b, preset, rm, kinds, cleared, 'partial' if j % 3 == 1 else 'raise')
+                _retag(c, 'names ' + c['note'][5:], names={str(k): v for k, v in names.items()})
+                if j % 4 == 0:
+                    c['post'] = dict(c['final'])
+                    c['fixed_post'] = True
+                out.append(c)
+            j += 1
+        for b in backends:
+            c = enum_case(b, 2, 'store_fresh', [], False)
+            c['final'] = {'op': 'delete', 'id': 3}
+            out.append(_retag(c, 'names delete', names={str(k): v for k, v in names.items()}))
+    return out
+
+
+# templates with SHARED sub-templates: node j = (identifier slot, [indices of earlier nodes]); the last node is the root
+SHARE_SHAPES = {
+    'mid-then-leaf': [[], [0], [1, 0]],                 # R[M[L], L]   (the leaf is reached first through M)
+    'leaf-then-mid': [[], [0], [0, 1]],                 # R[L, M[L]]
+    'two-mids': [[], [0], [0], [1, 2]],                 # R[M1[L], M2[L]]
+    'deep-then-leaf': [[], [0], [1], [2, 0]],           # R[M[I[L]], L]
+    'leaf-then-deep': [[], [0], [1], [0, 2]],           # R[L, M[I[L]]]
+    'deep-then-inner': [[], [0], [1], [2, 1]],          # R[M[I[L]], I]
+    'inner-then-deep': [[], [0], [1], [1, 2]],          # R[I, M[I[L]]]
+    'three-depths': [[], [0], [1, 0], [2, 0]],          # R[M[I[L], L], L]
+    'three-depths-rev': [[], [0], [0, 1], [0, 2]],      # R[L, M[L, I[L]]]
+    'mid-and-leaf-shared': [[], [0], [1, 0, 1]],        # R[M[L], L, M]
+    'two-leaves-crossed': [[], [], [0, 1], [2, 1, 0]],  # R[M[L, K], K, L]
+    'diamond-chain': [[], [0], [0], [1, 2], [3, 1, 0]], # R[D[M1[L], M2[L]], M1, L]
+}
+SHARE_IDS = ([5, 6, 7, 8, 9], [29, 18, 17, 6, 5], [7, 10, 8, 30, 9])     # numeric / lexicographic orders differ
+
+
+def dag_case(backend, shape, ids, mode, wrapbits=0, fault='raise', note='share'):
+    s = Scn(backend, fault)
+    if mode != 'empty':
+        l1 = s.obj(1)
+        s.history.append({'op': 'store', 't': s.obj(0, [l1, s.obj(2, shape=1)], wrap=[False, True])})
+    root_id = ids[len(shape) - 1]
+    if mode == 'overwrite':     # the root identifier exists already (with another child) and is referenced
+        s.history.append({'op': 'store', 't': s.obj(root_id, [l1])})
+        s.history.append({'op': 'store', 't': s.obj(3, [s.n], shape=1)})
+    if mode == 'cleared':
+        s.history.append({'op': 'clear'})
+    tags = []
+    bit = 0
+    for j, kids in enumerate(shape):
+        wrap = []
+        for _ in kids:
+            wrap.append(bool(wrapbits >> bit & 1))
+            bit += 1
+        tags.append(s.obj(ids[j], [tags[k] for k in kids], wrap, shape=j % 2))
+    return s.case({'op': 'overwrite' if mode == 'overwrite' else 'store', 't': tags[-1]}, note)
+
+
+def share_cases(backends, tier):
+    out = []
+    j = 0
+    for name, shape in SHARE_SHAPES.items():
+        for mode in ('empty', 'preset', 'overwrite'):
+            for b in (backends if tier == 'thorough' else [backends[(j + j // 3) % len(backends)]]):
+                c = dag_case(b, shape, SHARE_IDS[j % 3], mode, wrapbits=(0, 0b10101, 0b01010, 0b11111)[j % 4],
+                             fault='partial' if j % 5 == 4 else 'raise', note='share %s %s' % (name, mode))
+                c['all_positions'] = b != 'zip' or tier == 'thorough'
+                if j % 4 == 1:      # the failed operation is repeated
+                    c['post'] = dict(c['final'])
+                    c['fixed_post'] = True
+                out.append(c)
+            j += 1
+    return out
+
+
+def small_dags(n):
+    """all templates over n named objects in which node j refers to an ordered selection (no repetition) of the
+    nodes before it and the last node (the root) reaches every node"""
+    def selections(m):
+        for r in range(m + 1):
+            yield from itertools.permutations(range(m), r)
+    def rec(j, acc):
+        if j == n:
+            reach, todo = set(), [n - 1]
+            while todo:
+                x = todo.pop()
+                if x not in reach:
+                    reach.add(x)
+                    todo.extend(acc[x])
+            if len(reach) == n:
+                yield [list(k) for k in acc]
+            return
+        for sel in selections(j):
+            yield from rec(j + 1, acc + [sel])
+    return list(rec(0, []))
+
+
+def dag_enum_cases(backends, rng, tier):
+    out = []
+    for n in (2, 3, 4):
+        for shape in small_dags(n):
+            shared = len({k for kids in shape for k in kids}) < sum(len(kids) for kids in shape)
+            keep = 1.0 if tier == 'thorough' else (0.12 if shared else 0.03)
+            for b in backends:
+                if rng.random() < keep:
+                    out.append(dag_case(b, shape, rng.choice(SHARE_IDS), rng.choice(['empty', 'preset', 'overwrite', 'cleared']),
+                                        wrapbits=rng.getrandbits(8), fault=rng.choice(['raise', 'raise', 'partial']),
+                                        note='dag %d %s' % (n, '/'.join(''.join(map(str, k)) or '-' for k in shape))))
+    return out
+
+
+def caching_cases(tier):
+    """the caching wrapper around the directory and around the archive: every put / delete of the wrapped backend
+    failing; observed through the directory / archive AND through the wrapper object (its own cache of texts)"""
+    out = []
+    for b in ('cfs', 'czip'):
+        for j, (preset, rm, kinds, cleared) in enumerate([
+                (2, 'overwrite_cached1', ['newleaf'], False), (2, 'overwrite_cached0', ['newtree'], True),
+                (2, 'store_fresh', ['cached1', 'newleaf'], False), (1, 'overwrite_cached1', [], False)]):
+            c = enum_case(b, preset, rm, kinds, cleared, 'partial' if j == 1 else 'raise')
+            _retag(c, 'cache ' + c['note'][5:], all_positions=True)
+            c['post'] = dict(c['final']) if j % 2 == 0 else None
+            if j % 2 == 1:
+                tag = str(max(int(t) for t in c['objs']) + 1)
+                c['objs'][tag] = {'id': 40, 'payload': 900 + int(tag), 'kids': [c['final']['t']], 'shape': 0, 'wrap': [True]}
+                c['post'] = {'op': 'store', 't': int(tag)}
+            c['fixed_post'] = True
+            out.append(c)
+        for variant in (0, 3, 5, 9):
+            c = hist_case(b, variant)
+            out.append(_retag(c, 'cache hist %d' % variant))
+        c = enum_case(b, 2, 'store_fresh', [], False)
+        c['history'] += [{'op': 'load', 'id': 0, 'base': 1000}, {'op': 'clear'}]
+        c['final'] = {'op': 'delete', 'id': 3}
+        out.append(_retag(c, 'cache delete'))
+        # the wrapper's own cache is dropped (clear_cache) between the history and the final operation
+        for rm, kinds in (('overwrite_cached0', ['newleaf']), ('store_fresh', ['cached2'])):
+            c = enum_case(b, 2, rm, kinds, True)
+            c['history'][-1] = {'op': 'clear', 'how': 'wrapper'}
+            out.append(_retag(c, 'cache dropped ' + c['note'][5:], all_positions=True))
+    return out
+
+
+def registry_cases(backends):
+    """the PulseStorage is the default pulse registry: a named object is stored by CONSTRUCTING it (new and cached
+    children, a used identifier, an un-serializable child, the identity check loading from the backend while the
+    registry is active)"""
+    out = []
+    j = 0
+    for rm, kinds, cleared in (('store_fresh', ['newleaf'], False), ('store_fresh', ['cached1', 'newtree'], False),
+                               ('store_used', ['newleaf'], False), ('store_fresh', ['newleaf', 'bad'], False),
+                               ('store_fresh', ['cached1'], True), ('store_fresh', ['usedid', 'newleaf'], False),
+                               ('store_fresh', ['newtree', 'dupobj'], True)):
+        for b in backends:
+            c = enum_case(b, 2, rm, kinds, cleared, 'partial' if j % 4 == 3 else 'raise')
+            c['final']['via_registry'] = True
+            out.append(_retag(c, 'registry ' + c['note'][5:]))
+            j += 1
+    return out
+
+
 def rand_tree(s, rng, fresh, reusable, depth, allow_bad=0.0, clash_ids=()):
     r = rng.random()
     if reusable and r < 0.25:
@@ -554,11 +805,13 @@ def gen_cases(rng, tier, ctx):
         fam = c['note'].split()[0]
         # kill runs (a copy of the directory at every position, the process really killed at some) on a share of the cases
         c['kill'] = c['backend'] != 'dict' and (rng.random() < KILL_SHARE[tier] or c['note'] in ('cycle', 'enum delete')
-                                                or fam == 'lowlevel' or (fam in ('hist', 'ow', 'load') and rng.random() < 0.5))
+                                                or fam == 'lowlevel' or (fam in ('hist', 'ow', 'load') and rng.random() < 0.5)
+                                                or (fam in ('share', 'names', 'cache') and rng.random() < 0.3))
         # read primitives as fault positions (exception semantics) on a share of the cases
-        c['reads'] = c['backend'] != 'dict' and rng.random() < (0.25 if tier == 'quick' else 0.15)
+        force_reads = c.pop('force_reads', False)
+        c['reads'] = c['backend'] != 'dict' and (rng.random() < (0.25 if tier == 'quick' else 0.15) or force_reads)
         # the archive writer's own file object is proxied (every low-level write is a position) on a share of the zip cases
-        c['lowlevel'] = c.get('lowlevel', False) or (c['backend'] == 'zip' and rng.random() < LOWLEVEL_SHARE[tier])
+        c['lowlevel'] = c.get('lowlevel', False) or (c['backend'] in ('zip', 'czip') and rng.random() < LOWLEVEL_SHARE[tier])
         # what reaches the disk when the process stops: nothing that was only handed to python file objects
         # ('noflush'), all of it ('flush'), only the data of the file opened last / first ('flush-last' / 'flush-first')
         c['kill_modes'] = rng.choice([['flush'], ['flush'], ['noflush'], ['noflush'], ['flush-last'], ['flush-first']]
@@ -625,6 +878,13 @@ def _gen_cases(rng, tier, ctx):
     cases.extend(lowlevel_cases(tier))
     cases.extend(same_object_cases(backends + ['cfs']))
     cases.extend(load_cases(backends + ['cfs']))
+    # round 4 families
+    cases.extend(open_failure_cases(tier))
+    cases.extend(spelling_cases(['fs', 'zip', 'cfs', 'dict'], tier))
+    cases.extend(share_cases(backends, tier))
+    cases.extend(dag_enum_cases(backends, rng, tier))
+    cases.extend(caching_cases(tier))
+    cases.extend(registry_cases(backends + ['cfs']))
     # random templates on random storages
     for _ in range({'quick': 150, 'thorough': 2500}[tier]):
         cases.append(rand_case(rng, rng.choice(backends)))
@@ -662,8 +922,13 @@ def histogram_keys(case, obs):
         n = len(obs['crashes'])
         keys.append('outcome:' + obs['outcome'])
         keys.append('crash_positions:' + ('0' if n == 0 else '1' if n == 1 else '2-4' if n <= 4 else '5-9' if n <= 9 else '10+'))
-        if n < len(obs['trace']):
+        if len([c for c in obs['crashes'] if not c.get('natural')]) < len(obs['trace']):
             keys.append('raise_positions:selected-subset')
+        for c in obs['crashes']:
+            if c.get('natural'):
+                keys.append('failure_from_the_environment:%s:%s' % (c['natural'], c['prim']))
+        if case.get('names'):
+            keys.append('identifier_spelling:special')
         keys.append('stored_before:%d' % min(len(obs['before']['entries']), 6))
         for p in set(obs['trace']):
             keys.append('prim:' + p)
@@ -679,7 +944,8 @@ def histogram_keys(case, obs):
             keys.append('kill:process-really-killed-at-%s-positions' % ('1-2' if nreal <= 2 else '3+'))
     else:
         keys.append('obs:crash')
-    if case['note'].split()[0] in ('enum', 'order', 'hist', 'ow', 'lowlevel', 'same', 'load'):
+    if case['note'].split()[0] in ('enum', 'order', 'hist', 'ow', 'lowlevel', 'same', 'load', 'open', 'names', 'share',
+                                   'dag', 'cache', 'registry'):
         keys.append('stream:' + case['note'].split()[0])
     elif case['note'].startswith('corpus'):
         keys.append('stream:corpus')
@@ -729,6 +995,8 @@ def spec_failures(case, obs):
     if 'crashes' not in obs:
         return [('run', 'crash', str(obs))]
     before = {e[0]: e[1] for e in obs['before']['entries']}
+    if 'view2' in obs['before']:
+        return [('before the operation', 'v', 'the caching wrapper and the directory differ after the history')]
     if obs['before']['missing'] or not all(e[2] for e in obs['before']['entries']):
         return []
     f = case['final']
@@ -741,6 +1009,12 @@ def spec_failures(case, obs):
     out = []
 
     def ok(where, o, wb):
+        if 'view2' in o:
+            # the caching wrapper object shows something else than the directory / archive it wraps: the clauses
+            # must hold for what IT shows as well (and the model has one content only: no correspondence)
+            out.append((where, 'v', 'the caching wrapper shows %s, the directory / archive holds %s' % (
+                o['view2']['entries'], o['entries'])))
+            ok(where + ' [through the caching wrapper]', o['view2'], wb)
         cur = {e[0]: e[1] for e in o['entries']}
         if o['missing']:
             out.append((where, 'a', 'the archive file is missing or not a readable archive'))
@@ -760,12 +1034,16 @@ def spec_failures(case, obs):
             out.append((where, 'c', 'failure before the first write changed the storage'))
     ok('no-failure run', obs['after'], None)
     for c in obs['crashes']:
-        ok('failure at primitive %d (%s)' % (c['k'], c['prim']), c['obs'], c['wb'])
+        where = 'failure at primitive %d (%s%s)' % (c['k'], c['prim'], ', %s from the operating system, nothing '
+                                                    'injected' % c['natural'] if c.get('natural') else '')
+        ok(where, c['obs'], c['wb'])
         if case.get('post'):
-            for e in c['post']['entries']:
+            for e in c['post']['entries'] + c['post'].get('view2', {}).get('entries', []):
                 if not e[2]:
-                    out.append(('failure at primitive %d (%s), then %s' % (c['k'], c['prim'], case['post']['op']), 'a',
+                    out.append((where + ', then %s' % case['post']['op'], 'a',
                                 'n%d is listed but does not load after the follow-up operation (document %s)' % (e[0], e[1])))
+            if 'view2' in c['post']:
+                out.append((where + ', then %s' % case['post']['op'], 'v', 'the caching wrapper and the directory differ'))
     for seq in obs.get('kills', []):
         for c in seq:
             where = 'process killed before position %d (%s, %s)' % (c['k'], c['prim'], c['mode'])
@@ -779,9 +1057,11 @@ def spec_failures(case, obs):
                         out.append((where + ', then %s by a new process' % case['post']['op'], 'a',
                                     'n%d is listed but does not load (document %s)' % (e[0], e[1])))
     if case.get('post') and all(e[2] for e in obs['after']['entries']):
-        for e in obs['after_post']['entries']:
+        for e in obs['after_post']['entries'] + obs['after_post'].get('view2', {}).get('entries', []):
             if not e[2]:
                 out.append(('no-failure run, then follow-up', 'a', 'n%d is listed but does not load' % e[0]))
+    if 'view2' in obs.get('after_post', {}):
+        out.append(('no-failure run, then follow-up', 'v', 'the caching wrapper and the directory differ'))
     if obs['outcome'] != 'ok':
         if {e[0]: e[1] for e in obs['after']['entries']} != before:
             out.append(('no-failure run', 'c', 'operation raised %s but changed the storage' % obs['outcome']))
